@@ -151,7 +151,7 @@ Proof.
     - subst acc. simpl in HF.
       destruct (bc f tc um F ai is_ev t0 m0 ch (anc ++ [Z.abs_nat c])) as [r0|] eqn:B.
       + eapply (IHcs _ (r_tgt r0)); [|reflexivity| |exact HF].
-        * eapply IH; eauto. apply RCS. left; auto.
+        * apply (IH is_ev t0 m0 ch (anc ++ [Z.abs_nat c]) r0 I0 (RCS ch (or_introl eq_refl)) B).
         * intros ch' Hch'. apply RCS. right; auto.
       + rewrite child_step_none in HF. discriminate. }
   assert (RCH : forall ch, In ch (children nd) -> ch = 0%Z \/ In (Z.abs_nat ch) SK).
@@ -182,7 +182,7 @@ Proof.
         -- destruct (bc (S (S (length F))) tc um F ai is_ev t m (if is_ev then Z.abs c else c) []) as [r|] eqn:B; [|discriminate].
            inversion BT; subst. eapply bc_inv_cone; [exact I| |exact B].
            destruct (RT c (or_introl eq_refl)) as [->|RC]. left. destruct is_ev; reflexivity.
-           right. destruct is_ev; auto. rewrite Zabs2Nat.inj_abs. exact RC.
+           right. destruct is_ev; auto. destruct c; exact RC.
         -- inversion BT; subst; auto.
         -- inversion BT; subst; auto.
       * intros c Hc. apply RT. right; auto.
@@ -205,3 +205,55 @@ Proof.
 Qed.
 
 End InvCone.
+
+(* ------------------------------------------------------------------ the end-to-end theorem, real source layout *)
+Theorem pipeline_all_correct_cone : forall tc use_memo P qs e M SK D kqs kes,
+    wf_src_x P -> cone_ok P (qs ++ e) SK ->
+    stratified (wp_graph P) -> (forall a, is_model (wp_graph P) a (M a)) ->
+    break_cycles_m tc use_memo (wp_graph P) (ai_of P) qs e = Some (D, kqs, kes) ->
+    pipeline_all tc use_memo P qs e = Some (map (fun q => world_prob P M q e) qs).
+Proof.
+  intros tc um P qs e M SK D kqs kes WF [CR CL CA] ST HM BC.
+  assert (OK : dag_ok P D).
+  { destruct (break_cycles_shape_cone P SK WF CL CA tc um qs e D kqs kes CR BC) as [t [ED IT]].
+    subst D. apply Inv_dag_ok3; auto; apply WF. }
+  assert (HD : forall b, In b (wp_groups P) -> forall a a', (forall y, y <> snd b -> a y = a' y) ->
+               forall c, In (Some c) (qs ++ e) -> lit_val (M a) c = lit_val (M a') c).
+  { intros b Hb a a' H c Hc. destruct (CR c Hc) as [->|Hin]. reflexivity.
+    apply lit_val_ext. unfold key_of.
+    apply (cone_local (wp_graph P) SK CL a a' (M a) (M a') ST (HM a) (HM a')); auto.
+    intros k id Hk Ek. apply H. intro; subst id. apply (wfx_fresh P WF b Hb). eapply CA; eauto. }
+  destruct (pipeline_counts_all_dep tc um P qs e M D kqs kes ST HM HD BC OK) as [F1 E2].
+  unfold pipeline_all. rewrite BC. f_equal. apply Forall2_map_eq.
+  eapply Forall2_impl; [|exact F1]. intros q kq H. simpl in H. unfold world_prob. now rewrite H, E2.
+Qed.
+
+(* a checkable form of the cone condition *)
+Definition cone_okb (P : wprog) (roots : list key) (SK : list nat) : bool :=
+  let F := wp_graph P in
+  let mids := flat_map fst (blocks P) in
+  let inSK k := existsb (Nat.eqb k) SK in
+  forallb (fun r => match r with Some c => Z.eqb c 0 || inSK (Z.abs_nat c) | None => true end) roots &&
+  forallb (fun k => match node_at F k with
+                    | Some (NAtom id) => existsb (N.eqb id) mids
+                    | Some nd => forallb (fun c => Z.eqb c 0 || inSK (key_of c)) (children nd)
+                    | None => true
+                    end) SK.
+
+Lemma cone_okb_sound : forall P roots SK, cone_okb P roots SK = true -> cone_ok P roots SK.
+Proof.
+  intros P roots SK H. unfold cone_okb in H. apply andb_true_iff in H. destruct H as [H1 H2].
+  rewrite forallb_forall in H1, H2.
+  assert (INS : forall k, existsb (Nat.eqb k) SK = true -> In k SK).
+  { intros k E. apply existsb_exists in E. destruct E as [y [Hy E]]. apply Nat.eqb_eq in E. subst; auto. }
+  constructor.
+  - intros c Hc. apply H1 in Hc. apply orb_true_iff in Hc. destruct Hc as [Hc|Hc].
+    left. apply Z.eqb_eq; auto. right. apply INS; auto.
+  - intros k nd c Hk E Hc. apply H2 in Hk. rewrite E in Hk. destruct nd as [id|cs|cs]; simpl in Hc.
+    + destruct Hc.
+    + rewrite forallb_forall in Hk. apply Hk in Hc. apply orb_true_iff in Hc. destruct Hc as [Hc|Hc].
+      left. apply Z.eqb_eq; auto. right. apply INS; auto.
+    + rewrite forallb_forall in Hk. apply Hk in Hc. apply orb_true_iff in Hc. destruct Hc as [Hc|Hc].
+      left. apply Z.eqb_eq; auto. right. apply INS; auto.
+  - intros k id Hk E. apply H2 in Hk. rewrite E in Hk. apply existsb_Neqb_In; auto.
+Qed.
